@@ -7,12 +7,14 @@ Driver for C05.  Ops (see `harness/src/c05.rs` for the token grammar of values):
 
 * `c05.enc  <kind> <magic> <tokens…>`   value → `Message::write`      → `ok:<bytes>:<size>:<readback>`
 * `c05.penc <type> <tokens…>`            value → `T::write`            → `ok:<bytes>:<size>:<readback>`
-* `c05.dec  <label> <magic> <hex>`       bytes → `Message::read`       → `ok:<kind>:<value>:<rewritten>:<fix>:<consumed>` | `err:<class>`
-* `c05.pdec <type> <hex>`                bytes → `T::read`             → `ok:<value>:<rewritten>:<fix>:<consumed>` | `err:<class>`
+* `c05.dec  <label> <magic> <hex>`       bytes → `Message::read`       → `ok|nofix:<kind>:<value>:<rewritten>:<consumed>` | `err:<class>`
+* `c05.pdec <type> <hex>`                bytes → `T::read`             → `ok|nofix:<value>:<rewritten>:<consumed>` | `err:<class>`
+  (`ok` = read → write → read → write is a fixpoint, `nofix` = it is not)
 
 Long fields are replaced by `#<len>.<sha256d>` on both sides.
 Model column: the codec model.  Spec column: the reference encoder (`CG.Spec.WireSpec`) applied to
-the same value, read-back/fixpoint flag forced to `1` for in-range values.
+the same value, read-back flag forced to `1` for in-range values; for accepted inputs that are not
+the reference encoding of their value the spec demands the fixpoint only (`class:ok`).
 -/
 namespace CG.Drv.C05
 open CG CG.Drv CG.Model.Wire
@@ -89,7 +91,7 @@ def tPair {α β} (a : Tok α) (b : Tok β) : Tok (α × β) where
       | none => none
     | none => none
 
-infixr:60 " ⊕ " => tPair
+scoped infixr:60 " ⊕ " => tPair
 
 def tIso {α β} (a : Tok α) (f : α → β) (g : β → α) : Tok β where
   put b := a.put (g b)
@@ -280,10 +282,13 @@ def decMsg (magic : Bytes) (b : Bytes) : String :=
       match writeMessage Crypto.sha256 magic m with
       | none => "err:write\t*"
       | some b2 =>
-        let pre := "ok:" ++ kind ++ ":" ++ digestS (joinToks ts) ++ ":"
-        let model := pre ++ digestB b2 ++ ":" ++ fixFlag magic m b2 ++ ":" ++ toString consumed
+        let post := ":" ++ kind ++ ":" ++ digestS (joinToks ts) ++ ":"
+        let fix := fixFlag magic m b2
+        let model := (if fix == "1" then "ok" else "nofix") ++ post ++ digestB b2 ++ ":" ++ toString consumed
+        -- the reference encoder speaks about the value only when the input IS its encoding;
+        -- for any other accepted input the property demands the fixpoint (class `ok`) only
         let spec := match Spec.WireSpec.message Crypto.sha256 magic m with
-          | some sb => pre ++ digestB sb ++ ":1:" ++ toString consumed
+          | some sb => if b.take consumed == sb then "ok" ++ post ++ digestB sb ++ ":" ++ toString consumed else "class:ok"
           | none => "err:spec"
         model ++ "\t" ++ spec
   | o => errStr o ++ "\t*"
@@ -310,11 +315,12 @@ def pdecH {α} [DecidableEq α] (c : Codec α) (t : Tok α) (spec : α → Bytes
     let consumed := b.length - r.length
     let b2 := c.enc v
     let fix := match c.dec b2 with
-      | .ok (v2, r2) => if v2 = v ∧ r2 = [] ∧ (c.enc v2 == b2) = true then "1" else "0"
-      | _ => "0"
-    let pre := "ok:" ++ digestS (joinToks (t.put v)) ++ ":"
-    some (pre ++ digestB b2 ++ ":" ++ fix ++ ":" ++ toString consumed ++ "\t" ++
-          pre ++ digestB (spec v) ++ ":1:" ++ toString consumed)
+      | .ok (v2, r2) => if v2 = v ∧ r2 = [] ∧ (c.enc v2 == b2) = true then "ok" else "nofix"
+      | _ => "nofix"
+    let post := ":" ++ digestS (joinToks (t.put v)) ++ ":"
+    let sb := spec v
+    let specS := if b.take consumed == sb then "ok" ++ post ++ digestB sb ++ ":" ++ toString consumed else "class:ok"
+    some (fix ++ post ++ digestB b2 ++ ":" ++ toString consumed ++ "\t" ++ specS)
   | o => some (errStr o ++ "\t*")
 
 open Spec in
